@@ -206,6 +206,15 @@ class Bag(list):
     """a user container printed by a printer that is registered *by name* (pending until its first print, re-armed before every case)"""
 
 
+class PredBag:
+    """a container printed by a predicate printer"""
+    def __init__(self, items):
+        self.items = list(items)
+
+
+pp.register_pretty(predicate=lambda v: isinstance(v, PredBag))(lambda v, ctx: pp.pretty_call_alt(ctx, 'PredBag', args=(v.items,)))
+
+
 def _print_bag(value, ctx):
     return pp.pretty_call_alt(ctx, 'Bag', args=(list(value),))
 
@@ -258,6 +267,26 @@ def byname_and_trailing_cycle_check():
                 bad.append({'kind': 'cycle-handling', 'why': 'a container printed by a by-name printer (%s): printed %r, expected %r' % (
                     'just promoted' if not again else 'promoted earlier', got[:200], want), 'graph': mk.__name__})
                 break
+    # ... and through a value printed by a PREDICATE printer (the way the dataclasses / attrs / IPython extras print): it takes part in
+    # the visit bookkeeping like any other
+    p = PredBag([1])
+    inner = [p]
+    p.items.append(inner)
+    got = safe_pformat(p, (4, 200, 200, None, 1000, 0), limit=5)
+    want = 'PredBag([1, [<Recursion on PredBag with id=%d>]])' % id(p)
+    if got != want:
+        bad.append({'kind': 'cycle-handling', 'why': 'a cycle through a value printed by a predicate printer: printed %r, expected %r' % (got[:200], want), 'graph': 'PredBag -> list -> PredBag'})
+    lst = []
+    q = PredBag([lst])
+    lst.append(q)
+    got = safe_pformat(lst, (4, 200, 200, None, 1000, 0), limit=5)
+    want = '[PredBag([<Recursion on list with id=%d>])]' % id(lst)
+    if got != want:
+        bad.append({'kind': 'cycle-handling', 'why': 'a cycle through a value printed by a predicate printer: printed %r, expected %r' % (got[:200], want), 'graph': 'list -> PredBag -> list'})
+    shared = PredBag([2])
+    got = safe_pformat([shared, shared], (4, 200, 200, None, 1000, 0), limit=5)
+    if got != '[PredBag([2]), PredBag([2])]':
+        bad.append({'kind': 'cycle-handling', 'why': 'a shared value printed by a predicate printer: printed %r' % got[:200], 'graph': '[p, p]'})
     plain = [frozenset([1, 2]), collections.deque([1, [2]]), collections.OrderedDict([('a', [1])]), collections.defaultdict(list, a=[1]),
              collections.Counter('aab'), collections.ChainMap({'a': 1}, {'b': [2]}), types.MappingProxyType({'m': [1]})]
     for x in plain:
